@@ -579,6 +579,29 @@ fn find(hay: &[u8], needle: &[u8]) -> bool {
     hay.windows(needle.len()).any(|w| w == needle)
 }
 
+/// does any offset inside the wrapper (other than the stream itself) start a stream that the library
+/// accepts with more than 1024 bytes of plaintext? (a self-contained final block, for instance)
+fn wrapper_has_other_acceptable_start(s: &dyn Subject, wrapper: &[u8], plain: &[u8]) -> bool {
+    use std::collections::HashMap;
+    use std::sync::Mutex;
+    static CACHE: Mutex<Option<HashMap<u64, bool>>> = Mutex::new(None);
+    let key = crate::props_c14::fnv(wrapper) ^ (wrapper.len() as u64).rotate_left(40);
+    if let Some(v) = CACHE.lock().unwrap_or_else(|e| e.into_inner()).get_or_insert_with(HashMap::new).get(&key) {
+        return *v;
+    }
+    let mut found = false;
+    for q in 0..wrapper.len() {
+        if let Ok(Ok(r)) = caught(|| s.decompress(&wrapper[q..], true)) {
+            if r.plain.len() > 1024 && r.plain != plain {
+                found = true;
+                break;
+            }
+        }
+    }
+    CACHE.lock().unwrap_or_else(|e| e.into_inner()).get_or_insert_with(HashMap::new).insert(key, found);
+    found
+}
+
 const SIGS: [[u8; 2]; 7] = [[0x78, 0x01], [0x78, 0x5e], [0x78, 0x9c], [0x78, 0xda], [0x50, 0x4b], [0x1f, 0x8b], [0x49, 0x44]];
 
 pub fn c06_check(ctx: &Ctx, st: &mut Local, eng: &str, idx: u64, c: &FileCase) {
@@ -619,19 +642,24 @@ pub fn c06_check(ctx: &Ctx, st: &mut Local, eng: &str, idx: u64, c: &FileCase) {
         // included in the scan to stay on the safe side)
         let lo = if k == 0 { 0 } else { c.embedded[k - 1].end.saturating_sub(24).max(c.embedded[k - 1].start + 2) };
         let mut clean = true;
-        'outer: for p in lo..emb.start {
-            if p + 1 < c.bytes.len() && SIGS.iter().any(|sg| c.bytes[p] == sg[0] && c.bytes[p + 1] == sg[1]) {
-                for q in p + 1..(p + 400).min(c.bytes.len()) {
-                    if let Ok(Ok(r)) = caught(|| s.decompress(&c.bytes[q..], true)) {
-                        if r.plain.len() > 1024 && q + r.size > emb.start && r.plain != emb.plain {
-                            clean = false;
-                            if std::env::var("PFV_DEBUG").is_ok() {
-                                eprintln!("DEBUG junk-forms: {} p={} q={} size={} plain={} start={}", c.descr, p, q, r.size, r.plain.len(), emb.start);
-                            }
-                            break 'outer;
-                        }
+        let first_lookalike = (lo..emb.start).find(|&p| p + 1 < c.bytes.len() && SIGS.iter().any(|sg| c.bytes[p] == sg[0] && c.bytes[p + 1] == sg[1]));
+        if let Some(p0) = first_lookalike {
+            // a probe that starts at a look-alike may skip a variable number of bytes (gzip / zip header
+            // fields), so it can land anywhere behind it: (a) inside the junk, checked per file;
+            // (b) inside the wrapper that follows, checked once per wrapper and cached
+            for q in p0 + 1..emb.start {
+                if let Ok(Ok(r)) = caught(|| s.decompress(&c.bytes[q..], true)) {
+                    if r.plain.len() > 1024 && q + r.size > emb.start && r.plain != emb.plain {
+                        clean = false;
+                        break;
                     }
                 }
+            }
+            if clean && wrapper_has_other_acceptable_start(s, &c.bytes[emb.start..emb.end], &emb.plain) {
+                clean = false;
+            }
+            if !clean && std::env::var("PFV_DEBUG").is_ok() {
+                eprintln!("DEBUG junk-forms: {}", c.descr);
             }
         }
         if !clean {
